@@ -253,3 +253,47 @@ Proof.
     rewrite forallb_forall in H. specialize (H t Ht). unfold resolves in H.
     destruct (enter_flat h (S (length h)) t); [discriminate|discriminate].
 Qed.
+
+Theorem extract_keeps_ctrace_b hd rname h lvl blocks entries ex rk h' strict :
+  extract h lvl blocks entries hd ex rk rname = XOk h' ->
+  walk_pre_extract h lvl hd rname = true ->
+  forall n e e' ds,
+    (exists b p, find h n = Some b /\ n_kind b = KOrig p) ->
+    E Fx e e' ->
+    CTrace h (resolve_flat h) strict n e ds -> CTrace h' (resolve_flat h') strict n e' ds.
+Proof.
+  intros Hx Hpre. unfold walk_pre_extract in Hpre.
+  repeat (apply andb_true_iff in Hpre as [Hpre ?]).
+  match goal with H : forallb (fun n => is_region n || forallb (resolves h) (n_jt n)) h = true |- _ => rename H into HR end.
+  match goal with H : match find h hd with None => true | Some nh => Z.eqb (n_parent nh) lvl end = true |- _ => rename H into Hhd end.
+  match goal with H : forallb (header_below h) h = true |- _ => rename H into HB end.
+  match goal with H : depth_okb h = true |- _ => rename H into Hok end.
+  match goal with H : match find h lvl with Some nl => is_region nl | None => false end = true |- _ => rename H into Hlvl end.
+  match goal with H : forallb (good_b hd rname) h = true |- _ => rename H into HG end.
+  match goal with H : match find h rname with None => true | Some _ => false end = true |- _ => rename H into Hfr end.
+  apply negb_true_iff in Hpre. apply Z.eqb_neq in Hpre.
+  apply (extract_keeps_ctrace hd rname Hpre h lvl blocks entries ex rk h' strict Hx).
+  - destruct (find h rname); [discriminate|reflexivity].
+  - intros x n0 Hx0 Hl. pose proof (find_forallb h _ HG x n0 Hx0) as H. unfold good_b in H. rewrite Hl in H. cbn [orb] in H.
+    apply andb_true_iff in H as [H12 H3]. apply andb_true_iff in H12 as [H1 H2].
+    split; [apply nodupb_sound; exact H1|]. split.
+    + apply orb_true_iff in H2 as [H2|H2]; apply negb_true_iff in H2; apply zmem_false in H2; [left|right]; exact H2.
+    + intros c v tbl Ek. rewrite Ek in H3. apply nodupb_sound. exact H3.
+  - destruct (find h lvl) as [nl|]; [eauto|discriminate].
+  - (* rank: unfound names lowest, a found name the higher the closer to the top *)
+    set (M := S (S (length h))).
+    exists (fun x => match find h x with None => 0%nat | Some _ => (M - depth h x)%nat end). split.
+    + intros x n0 rk0 h0 e0 c0 p0 o0 Hx0 Hk. rewrite Hx0.
+      pose proof (depth_le h x) as Hdx.
+      destruct (find h h0) as [nh|] eqn:Eh0; [|unfold M; lia].
+      pose proof (find_forallb h _ HB x n0 Hx0) as H. unfold header_below in H. rewrite Hk, Eh0 in H.
+      apply Z.eqb_eq in H. rewrite (depth_step h h0 nh Hok Eh0), H.
+      rewrite (find_name _ _ _ Hx0). unfold M. lia.
+    + destruct (find h lvl) as [nl|] eqn:El; [|discriminate].
+      pose proof (depth_le h lvl) as Hdl.
+      destruct (find h hd) as [nh|] eqn:Ehd; [|unfold M; lia].
+      apply Z.eqb_eq in Hhd. rewrite (depth_step h hd nh Hok Ehd), Hhd. unfold M. lia.
+  - intros x n0 t Hx0 Hl Ht. pose proof (find_forallb h _ HR x n0 Hx0) as H. cbv beta in H. rewrite Hl in H. cbn [orb] in H.
+    rewrite forallb_forall in H. specialize (H t Ht). unfold resolves in H.
+    destruct (enter_flat h (S (length h)) t); [discriminate|discriminate].
+Qed.
